@@ -16,13 +16,13 @@ COMMON_NOTE = ('Exact rationals instead of IEEE doubles (rounding enters only as
 # id -> (technique, what the theorems say + how the model is tied, design ref)
 CLAIMED = {
  'C01': ('Lean 4 proof: invariant by induction over chain, instants and schedule operations + whole-history correspondence',
-         'C01.C01: for every configuration (any chain, load function, controller) and every list of schedule operations, every recorded instant is kinematically coupled (position, speed, acceleration; held instants included). Tie: random chains of all element kinds in random units run on the real solver and on the compiled model, whole histories compared, oracle recomputes up = ratio x down.'),
+         'C01.C01: for every configuration (any chain, load function, controller) and every list of schedule operations, every recorded instant is kinematically coupled (position, speed, acceleration; held instants included); C01_segments / C01_segments_ratios: the same when controller, load function or relations change between runs; C01_pipeline: with the ratios the declarations wrote. Tie: random chains of all element kinds in random units run on the real solver and on the compiled model, whole histories compared, oracle recomputes up = ratio x down.'),
  'C02': ('Lean 4 proof: record invariant (driving/load/net torque laws, load = user function at the recorded state) + whole-history correspondence',
-         'C02.C02 for every load function and motor characteristic, every history; index and division-free forms; C02_current. Tie: the harness logs the arguments the real code passes to the load function and compares histories with the model.'),
+         'C02.C02 for every load function and motor characteristic, every history; index and division-free forms; C02_current; C02_segments (configuration changes between runs). Tie: schedules in which the controller, the load function, a relation or the units of live parameter objects change between runs; the harness logs the arguments the real code passes to the load function and compares histories with the model.'),
  'C03': ('Lean 4 proof: equation of motion per record, step relation between consecutive records by induction over loops/runs + correspondence',
          'C03_acc (not held => acceleration = net torque / documented inertia reduction) and loop_steps/run_steps (consecutive records satisfy the semi-implicit update, fresh and continued runs). Tie: whole-history and lock-step correspondence, inertias/dt/initial conditions in random units.'),
  'C04': ('Lean 4 proof: reduction of the model step to an affine map (Q) + Euler-vs-exponential bound in R (Mathlib analysis); order of convergence measured',
-         'record_acc_affine, affine_iter, euler_exp_err, speed_error_bound: the simulated speed stays within |w0-winf| (k t)(k dt) of the closed form at every instant. The position bound and the halving of the error are checked numerically against the implementation (labelled test). Tie: lock-step correspondence + closed-form comparison at dt, dt/2, dt/4, dt/8.'),
+         'record_acc_affine, affine_iter / pos_iter_closed (discrete closed forms), euler_exp_err, speed_error_bound and position_error_bound (|w - w(t)| <= |w0-winf| (k t)(k dt), |th - th(t)| <= |w0-winf| (k t + 1) dt), exact_solves_ode / exactPos_deriv (the closed forms are the solution of the equation of motion), run_follows_iter and C04_run (a fresh uncontrolled run records exactly the recursion, hence stays within the bounds at every recorded instant). The halving of the error is measured (labelled test). Tie: lock-step correspondence + the implementation against exactly the proved bounds at dt, dt/2, dt/4, dt/8.'),
  'C05': ('Lean 4 proof: table theorems by decide +kernel on the regenerated unit table vs an independent SI spec + field laws for conversion and comparison',
          'factor_matches_SI / unit_names_match_SI (every unit of every kind against first-principles SI definitions), gen_good, conversion laws, cmp_unit_blind / cmp_distinct_partial / eq_symm_partial; the relative-tolerance statement is false of the code (K1 witness theorems). Tie: exhaustive unit pairs x magnitudes on both sides, including CPython reflected comparison dispatch.'),
  'C06': ('Lean 4 proof: finite kind skeleton (case analysis) + SI congruence (field reasoning); exhaustive cell-by-cell correspondence',
@@ -34,15 +34,15 @@ CLAIMED = {
  'C09': ('Lean 4 proof: exhaustive decide +kernel over teeth 10..600 on the regenerated Lewis table + algebraic identities for force/bending/contact + flag iffs',
          'lewis_sorted, lewis_int (exhaustive), clamp/between/at-row lemmas, force/bending/worm formulas, contact_closed_form, flags_iff, wormWheel_bending_iff, contact_mate_error_iff. Tie: real gear classes vs independent Python oracle vs model for all subsets of optional data.'),
  'C10': ('Lean 4 proof: plan-then-write model of the three declaration functions; rejected => heap unchanged for any call sequence; post-conditions; efficiency-range iffs',
-         'rejected_unchanged / declareAll_step, gear_post / worm_post / joint_post, gear_rejects / joint_rejects, accepted_ratio_pos / accepted_eff_range, wormEff_range_master / wormEff_range_wheel. Tie: random pools and call sequences (mostly-valid and malformed streams), every element snapshotted before/after every call on both sides.'),
+         'rejected_unchanged / declareAll_step, gear_post / worm_post / joint_post, gear_rejects / worm_rejects / joint_rejects, drives_eq_declared (forward links = last accepted call per master), accepted_ratio_pos / accepted_eff_range, wormEff_range_master / wormEff_range_wheel. Tie: random pools and call sequences (mostly-valid and malformed streams), every element snapshotted before/after every call on both sides.'),
  'C11': ('Lean 4 proof: exact grid laws on the unit-carrying time axis + robustness of the guarded floor under bounded rounding perturbation (and fragility of the arange count)',
          'steps_exact, never_beyond, fresh_axis, continued_axis, stopped_axis_prefix, axis_spacing/strictMono, count_robust, guard_suffices, arange_fragile. Tie: sweep of decimal dt x n x units through the real Solver.run (physics patched out in-process) vs the grid model.'),
  'C12': ('Lean 4 proof: schedule equivalence (run split by grid/loop append; rerun after reset by equality of the first compute) + negation witness for the unprovisoed statement',
-         'run_split, run_split_units, rerun_eq (same or new solver) under the proviso that reset restores the pre-run duty cycle or the chain is not self-locking; K3_witness / rerun_full_false show the proviso is necessary (known finding K3). Tie: schedule pairs on the real code, whole histories vs model.'),
+         'run_split, run_split_units, stop_then_continue (early stop + continuation = uninterrupted run), rerun_eq (same or new solver) under the proviso that reset restores the pre-run duty cycle or the chain is not self-locking; K3_witness / rerun_full_false show the proviso is necessary (known finding K3). Tie: schedule pairs on the real code, whole histories vs model.'),
  'C13': ('Lean 4 proof: lock state machine invariants (never clamped without self-locking, sign safety, held still, release condition)',
-         'never_clamped over all histories, sign_safe, held_still, held_state, release_only_if. Tie: overloaded self-locking chains on both sides, lock flag compared at every instant.'),
+         'never_clamped over all histories, sign_safe, held_still, held_state, engage_only_if, release_only_if; history level: SafeRel between every two consecutive records of every run and of every schedule of runs and resets (run_safe, first_safe, schedule_safe). Tie: overloaded self-locking chains on both sides, lock flag compared at every instant.'),
  'C14': ('Lean 4 proof: decision logic of the arbitration + range invariant over all histories',
-         'arbitrate_none/one/two/nan, arbitrate_range, recorded_in_range (every recorded duty cycle of every history within [-1,1]), conflict_stops. Tie: rule sets with overlapping windows and out-of-range proposals, whole simulations (lock-step) and stub-rule arbitration on the real PWMControl.'),
+         'arbitrate_none/one/two/nan, arbitrate_range, recorded_in_range and recorded_in_range_segments (every recorded duty cycle of every history within [-1,1], also when each run has its own controller), compute_applies_control, conflict_stops. Tie: rule sets with overlapping windows and out-of-range proposals, whole simulations (lock-step) and stub-rule arbitration on the real PWMControl.'),
  'C15': ('Lean 4 proof: window/value characterisation of the four rules + root of the current law (cross-module with C08)',
          'constant_window, reach_rule, ramp_rule (+ endpoints), limit_rule, limit_root, limit_outside_deadzone, limit_current_exact (the motor current law at the proposed duty cycle equals the limit). Tie: controlled simulations, documented formulas recomputed from the recorded state, recorded current = limit while in force.'),
  'C16': ('Lean 4 proof: the stopped loop is the unstopped loop over a prefix of the grid; predicate false on every strict prefix, true at the end if stopped early',
@@ -50,7 +50,7 @@ CLAIMED = {
  'C17': ('Lean 4 proof: bookkeeping invariant (one sample per instant per present key) by induction over update/reset sequences; advertised iff recorded for all kinds x data subsets',
          'advertised_iff_records, lengths_inv, export_total, last_is_attr. Tie: all element kinds x optional-data subsets x schedules; keys/lengths vs model; export and snapshot executed on every simulated powertrain.'),
  'C18': ('Lean 4 proof: interpolation at knots / between knots on strictly increasing axes, commutation with unit conversion, column selection logic',
-         'interp_at_knot, interp_between, interp_within, cell_linear, columns_subset/complete, reports_iff, sortOrder_matches. Tie: real snapshot tables and re-read CSV exports compared cell by cell with the oracle and the model.'),
+         'interp_at_knot, interp_between / interp_between_at (any segment of an unequally spaced axis), interp_within, interp_outside_left/right, cell_linear, columns_subset/complete, reports_iff, sortOrder_matches. Tie: real snapshot tables and re-read CSV exports compared cell by cell with the oracle and the model.'),
  'C19': ('Lean 4 proof: validity invariant over all straight-line programs of quantity operations (induction on the program) + constructor iffs',
          'valid_inv (every live object valid after every step of every program), sub_none_unreachable, mk_ok_iff, motorCtor_ok_iff, setPwm_ok_iff. Tie: random 40-step programs with store inspection on both sides, tiny-value stream (finds K4), constructor boundary cases.'),
  'C20': ('Lean 4 proof: chain walk (with fuel) is linked by drives and suffix-closed; error cases; self-locking flag iff',
